@@ -190,6 +190,17 @@ func (c *Core) forward(bp BundleDescriptor) {
 		"bundle": bp.ID(),
 	}).Printf("Bundle will be forwarded")
 
+	// A bundle is forwarded by one goroutine at a time. Otherwise, a retry coinciding with a forwarding in progress,
+	// e.g., because a peer appeared just now, works on an outdated copy of the bundle's store item and overwrites what
+	// the other one has recorded there, like the peers already served. The bundle stays pending for the next retry.
+	if _, busy := c.forwarding.LoadOrStore(bp.Id.Scrub(), struct{}{}); busy {
+		log.WithFields(log.Fields{
+			"bundle": bp.ID(),
+		}).Debug("Bundle is already being forwarded, leaving it to the next retry")
+		return
+	}
+	defer c.forwarding.Delete(bp.Id.Scrub())
+
 	bp.AddConstraint(ForwardPending)
 	bp.RemoveConstraint(DispatchPending)
 	_ = bp.Sync()
